@@ -1,4 +1,32 @@
 From Coq Require Import ZArith List.
-From PV Require Import Base.U64 C11.C11_Model C11.C11_Proofs.
-Theorem c11_placeholder : True. Proof. exact placeholder. Qed.
-Print Assumptions c11_placeholder.
+From PV Require Import Base.U64 C04.C04_Heap C11.C11_Model C11.C11_ProofsSafety C11.C11_Proofs.
+Import ListNotations.
+
+Theorem rpc_no_access_after_return :
+  forall calls script es s,
+    run_events (init true calls script) es = Some s ->
+    forall a, In a (s_acc s) -> a_live a = true.
+Proof. exact no_access_after_return_all. Qed.
+Print Assumptions rpc_no_access_after_return.
+
+Theorem rpc_registered_contexts_live :
+  forall calls script es s,
+    run_events (init true calls script) es = Some s ->
+    (forall g c, In (g, c) (s_map s) -> c_live (s_ctx s c) = true) /\
+    (forall t g, adopted_by (pcof s t) = Some g -> c_live (s_ctx s g) = true).
+Proof. exact registered_contexts_live. Qed.
+Print Assumptions rpc_registered_contexts_live.
+
+Theorem rpc_no_access_after_return_refuted :
+  exists calls script es s,
+    run_events (init false calls script) es = Some s /\
+    exists a, In a (s_acc s) /\ a_live a = false.
+Proof. exact no_access_after_return_refuted_pinned. Qed.
+Print Assumptions rpc_no_access_after_return_refuted.
+
+Theorem rpc_coop_run_is_a_schedule :
+  forall fix_ calls script tfuel fuel,
+    let d := run_case fix_ calls script tfuel fuel in
+    run_events (init fix_ calls script) (rev (d_evs d)) = Some (d_st d).
+Proof. exact drive_reachable. Qed.
+Print Assumptions rpc_coop_run_is_a_schedule.
